@@ -100,7 +100,11 @@ func verifKVCheck(tag string, b DBBucket, keys [2][]byte, m *kvModel) {
 }
 
 // verifKVRun drives nOps arbitrary operations against db and the model.
-func verifKVRun(tag string, db DB, under DB, nOps int) {
+func verifKVRun(tag string, db DB, under DB, nOps int) { verifKVRunMode(tag, db, under, nOps, false) }
+
+// verifKVRunMode: narrow = one key, non-empty values, ops {put,delete,flush,
+// cancel} only - the alphabet that longer sessions are explored with.
+func verifKVRunMode(tag string, db DB, under DB, nOps int, narrow bool) {
 	name := []byte("b")
 	var m kvModel
 	k0, k1 := vapi.U8("k0"), vapi.U8("k1")
@@ -110,21 +114,24 @@ func verifKVRun(tag string, db DB, under DB, nOps int) {
 	b, err := db.CreateBucket(name)
 	vapi.Assert(tag+".bucket", err == nil && b != nil)
 	bucketFlushed := false // the bucket's creation has been flushed
-	if vapi.Bool("flush-after-create") {
+	if !narrow && vapi.Bool("flush-after-create") {
 		vapi.Assert(tag+".flush", db.Flush() == nil)
 		bucketFlushed = true
 	}
 	for step := 0; step < nOps; step++ {
 		b = db.Bucket(name)
 		vapi.Assert(tag+".bucket", b != nil)
-		ki := vapi.Int("key", 0, 1)
-		switch vapi.Int("op", 0, 4) {
+		ki, maxOp := 0, 3
+		if !narrow {
+			ki, maxOp = vapi.Int("key", 0, 1), 4
+		}
+		switch vapi.Int("op", 0, maxOp) {
 		case 4: // creating the bucket again is refused and changes nothing
 			_, err := db.CreateBucket(name)
 			vapi.Assert(tag+".duplicate-create-refused", err != nil)
 		case 0: // put
 			v := vapi.U8("val")
-			empty := vapi.Bool("empty-value")
+			empty := !narrow && vapi.Bool("empty-value")
 			val := []byte{v}
 			if empty {
 				val = []byte{}
@@ -219,4 +226,19 @@ func VerifH_C17_mem5() {
 func VerifH_C17_cache5() {
 	under := &recDB{inner: NewMemDB()}
 	verifKVRun("cache", NewCacheDB(under), under, 5)
+}
+
+// VerifH_C17_mem_long / cache_long: longer sessions over a narrower alphabet
+// (one key): what a flush leaves pending only shows several operations later,
+// e.g. put, flush, delete, flush, cancel.
+//
+//verif:harness prop=C17 tier=quick require=done bounds="1 bucket, 1 arbitrary key (a second one only read), arbitrary 1-byte values, every sequence of 7 ops from {put,delete,flush,cancel}, Get+Iter compared after every op"
+func VerifH_C17_mem_long() {
+	verifKVRunMode("mem", NewMemDB(), nil, 7, true)
+}
+
+//verif:harness prop=C17,C03 tier=quick require=done bounds="as VerifH_C17_mem_long, CacheDB over MemDB, with the backend's commits audited"
+func VerifH_C17_cache_long() {
+	under := &recDB{inner: NewMemDB()}
+	verifKVRunMode("cache", NewCacheDB(under), under, 7, true)
 }
